@@ -464,37 +464,45 @@ theorem runFins_caching (F : Funcs) (fs : List Fin) (c : Ctx) :
       · rw [ih]; rfl
       · rw [ih]
 
-theorem runPipe_caching (F : Funcs) (ep : EP) (pipe : Pipe) (d : Bool) (c : Ctx) (hc : c.caches = true)
-    (hu : c.ups = {}) :
-    finalize ep (runPipe F pipe d c) = Spec.delivered ep (Spec.runPipe c.current F pipe d) := by
-  cases ha : runAuthz c.current F pipe.authz with
-  | some dd =>
-    simp only [runPipe, Spec.runPipe, ha]
-    cases dd <;> simp [finalize, Spec.delivered, hc, hu]
-  | none =>
-    simp only [runPipe, Spec.runPipe, ha, runFins_caching, hu]
-    cases hrf : Spec.runFins c.current F pipe.fins {} with
-    | mk u x =>
-      cases x with
-      | some dd => cases dd <;> simp [finalize, Spec.delivered, hc, Spec.handOver]
-      | none => simp [finalize, Spec.delivered, hc, Spec.handOver]
+theorem runPipe_caching (R : Respond) (lr : LReq) (F : Funcs) (ep : EP) (pipe : Pipe) (d : Bool) (c : Ctx)
+    (hc : c.caches = true) (hu : c.ups = {}) :
+    finalize R (Spec.headersMap lr) ep (runPipe F pipe d c) =
+      Spec.delivered R lr ep (Spec.runPipe c.current F pipe d) := by
+  cases hn : pipe.authn with
+  | false => simp [runPipe, Spec.runPipe, hn, finalize, Spec.delivered, Spec.answerWith]
+  | true =>
+    cases ha : runAuthz c.current F pipe.authz with
+    | some dd =>
+      simp only [runPipe, Spec.runPipe, ha, hn]
+      cases dd <;> simp [finalize, Spec.delivered, Spec.answerWith, hc, hu]
+    | none =>
+      cases hm : pipe.comm with
+      | true => simp [runPipe, Spec.runPipe, ha, hn, hm, finalize, Spec.delivered, Spec.answerWith, hc]
+      | false =>
+        simp only [runPipe, Spec.runPipe, ha, hn, hm, runFins_caching, hu]
+        cases hrf : Spec.runFins c.current F pipe.fins {} with
+        | mk u x =>
+          cases x with
+          | some dd => cases dd <;> simp [finalize, Spec.delivered, Spec.answerWith, hc, Spec.handOver]
+          | none => simp [finalize, Spec.delivered, Spec.answerWith, hc, Spec.handOver]
 
-theorem execute_caching (cfg : Cfg) (F : Funcs) (ep : EP) (o0 : ReqObj) :
-    finalize ep (execute cfg F { caches := true, fresh := o0 }) = Spec.delivered ep (Spec.serveOn cfg F o0) := by
+theorem execute_caching (cfg : Cfg) (lr : LReq) (F : Funcs) (ep : EP) (o0 : ReqObj) :
+    finalize cfg.respond (Spec.headersMap lr) ep (execute cfg F { caches := true, fresh := o0 }) =
+      Spec.delivered cfg.respond lr ep (Spec.serveOn cfg F o0) := by
   unfold execute Spec.serveOn
   simp only [withReq_caching, Ctx.current, Option.getD_none, Option.getD_some, if_true]
   cases hf : cfg.repo.findRule cfg.hasDefault o0.toReqView with
-  | none => simp [finalize, Spec.delivered]
+  | none => simp [finalize, Spec.delivered, Spec.answerWith]
   | default =>
     simp only []
     split
-    · simp [finalize, Spec.delivered]
-    · exact runPipe_caching F ep _ _ _ rfl rfl
+    · simp [finalize, Spec.delivered, Spec.answerWith]
+    · exact runPipe_caching cfg.respond lr F ep _ _ _ rfl rfl
   | rule v ps =>
     simp only []
     split
-    · simp [finalize, Spec.delivered]
-    · exact runPipe_caching F ep _ _ _ rfl rfl
+    · simp [finalize, Spec.delivered, Spec.answerWith]
+    · exact runPipe_caching cfg.respond lr F ep _ _ _ rfl rfl
 
 theorem toUpperA_toUpperA (c : Char) : toUpperA (toUpperA c) = toUpperA c := by
   generalize h : toUpperA c = d
@@ -543,5 +551,94 @@ theorem prelude_captures (esh : SlashHandling) (o : ReqObj) (h : (prelude esh o)
       o.captures.map fun caps => caps.map fun kv => (kv.1, (unescapeCapture esh (str kv.2)).toList) := by
   revert h
   cases esh <;> simp only [prelude] <;> simp <;> split <;> simp
+
+/-- the view a pipeline reports is the view it was run on -/
+theorem runPipe_view (o o' : ReqObj) (F : Funcs) (pipe : Pipe) (d : Bool)
+    (h : (Spec.runPipe o F pipe d).view = some o') : o = o' := by
+  revert h
+  unfold Spec.runPipe
+  cases pipe.authn <;> simp
+  cases runAuthz o F pipe.authz <;> simp
+  cases pipe.comm <;> simp
+  cases hrf : Spec.runFins o F pipe.fins {} with
+  | mk u x => cases x <;> simp
+
+/-! ## Projections of the reference answer -/
+
+theorem answerWith_dec (hand : List Bytes → Bytes) (R : Respond) (lr : LReq) (ep : EP) (r : Spec.Run) :
+    (Spec.answerWith hand R lr ep r).dec = Spec.decAt ep r := by
+  unfold Spec.answerWith Spec.decAt
+  cases hd : r.dec <;> cases ep <;> cases hi : r.isDefault <;> simp
+
+theorem answerWith_seen (hand : List Bytes → Bytes) (R : Respond) (lr : LReq) (ep : EP) (r : Spec.Run) :
+    (Spec.answerWith hand R lr ep r).seen = r.view.map fun o => ({ obj := o, stable := true } : Seen) := by
+  unfold Spec.answerWith
+  cases hd : r.dec <;> cases ep <;> cases hi : r.isDefault <;> simp
+
+theorem answerWith_status (hand : List Bytes → Bytes) (R : Respond) (lr : LReq) (ep : EP) (r : Spec.Run) :
+    (Spec.answerWith hand R lr ep r).status =
+      if Spec.decAt ep r = .ok then okStatus R ep else R.code (Spec.decAt ep r) := by
+  unfold Spec.answerWith Spec.decAt
+  cases hd : r.dec <;> cases ep <;> cases hi : r.isDefault <;> simp
+
+theorem answerWith_ok (hand : List Bytes → Bytes) (R : Respond) (lr : LReq) (ep : EP) (r : Spec.Run)
+    (h : (Spec.answerWith hand R lr ep r).dec = .ok) :
+    (Spec.answerWith hand R lr ep r).upCookies = r.ups.cookies ∧
+    (Spec.answerWith hand R lr ep r).upHeaders = r.ups.headers.map (fun kv => (kv.1, hand kv.2)) ∧
+    (Spec.answerWith hand R lr ep r).upSees =
+      overrideHeaders (Spec.headersMap lr) (r.ups.headers.map fun kv => (kv.1, hand kv.2)) := by
+  revert h
+  unfold Spec.answerWith
+  cases hd : r.dec <;> cases ep <;> cases hi : r.isDefault <;> simp
+
+/-- a refusal carries nothing but the decision, its status and the view that was shown -/
+theorem answerWith_refused (hand : List Bytes → Bytes) (R : Respond) (lr : LReq) (ep : EP) (r : Spec.Run)
+    (h : Spec.decAt ep r ≠ .ok) :
+    Spec.answerWith hand R lr ep r =
+      { dec := Spec.decAt ep r, status := R.code (Spec.decAt ep r),
+        seen := r.view.map fun o => ({ obj := o, stable := true } : Seen),
+        upHeaders := [], upCookies := [], upSees := [] } := by
+  revert h
+  unfold Spec.answerWith Spec.decAt
+  cases hd : r.dec <;> cases ep <;> cases hi : r.isDefault <;> simp
+
+theorem lookup_append {α : Type} (k : Bytes) (a b : List (Bytes × α)) :
+    lookup k (a ++ b) = (lookup k a).orElse fun _ => lookup k b := by
+  induction a with
+  | nil => simp [lookup]
+  | cons kv t ih => by_cases h : kv.1 = k <;> simp [lookup, h, ih]
+
+theorem lookup_filter_ne {α : Type} (k : Bytes) (p : Bytes → Bool) (m : List (Bytes × α)) (hp : p k = true) :
+    lookup k (m.filter fun kv => p kv.1) = lookup k m := by
+  induction m with
+  | nil => rfl
+  | cons kv t ih =>
+    by_cases h : kv.1 = k
+    · simp [List.filter, lookup, h, hp]
+    · by_cases hq : p kv.1 = true <;> simp [List.filter, lookup, h, hq, ih]
+
+/-- a header the pipeline hands over replaces what the client sent under that name; all other client headers pass -/
+theorem lookup_overrideHeaders (client handed : List (Bytes × Bytes)) (k : Bytes) :
+    lookup k (overrideHeaders client handed) = (lookup k handed).orElse fun _ => lookup k client := by
+  unfold overrideHeaders
+  rw [lookup_append]
+  cases hh : lookup k handed with
+  | some v => rfl
+  | none =>
+    simp only [Option.orElse_none]
+    have hany : (handed.any fun e => e.1 = k) = false := by
+      cases ha : (handed.any fun e => e.1 = k) with
+      | false => rfl
+      | true =>
+        exfalso
+        induction handed with
+        | nil => simp at ha
+        | cons kv t ih =>
+          by_cases h : kv.1 = k
+          · simp [lookup, h] at hh
+          · simp [lookup, h] at hh
+            simp only [List.any_cons, h, decide_false, Bool.false_or] at ha
+            exact ih hh ha
+    exact lookup_filter_ne k (fun n => !handed.any fun e => e.1 = n) client (by simp [hany])
 
 end Heimdall.EntryView
